@@ -278,6 +278,29 @@ def oracle_export(levels, D, query):
         lines = [l for l in open(rf) if 'polygon' in l]
         if len(lines) != len(stored):
             return True, 'reg-count', '%d polygons for %d stored pixels' % (len(lines), len(stored))
+        # each polygon's vertices are the corners of one stored pixel (sexagesimal text parsed back, 0.02 arcsec tolerance)
+        import re as _re
+
+        def sexa(txt, hours):
+            sg = -1 if txt.strip().startswith('-') else 1
+            hh, mm, ss = [float(x) for x in txt.strip().lstrip('+-').split(':')]
+            v = sg * (hh + mm / 60 + ss / 3600)
+            return v * 15 if hours else v
+        polys = []
+        for l in lines:
+            body = l[l.index('(') + 1:l.rindex(')')].split(',')
+            polys.append(sorted((round(sexa(body[i], True) % 360, 4), round(sexa(body[i + 1], False), 4)) for i in range(0, len(body), 2)))
+        want_polys = []
+        for lv, p in stored:
+            v = hp.boundaries(2 ** lv, int(p), step=1, nest=True)
+            th, ph = hp.vec2ang(np.array(v).T)
+            want_polys.append(sorted((round(float(np.degrees(a)) % 360, 4), round(float(90 - np.degrees(t)), 4)) for t, a in zip(th, ph)))
+
+        def close(a, b):
+            return all(min(abs(x[0] - y[0]), 360 - abs(x[0] - y[0])) * np.cos(np.radians(x[1])) < 2e-3 and abs(x[1] - y[1]) < 2e-3 for x, y in zip(a, b))
+        for wp in want_polys:
+            if not any(close(wp, gp) or close(sorted(wp, key=lambda q: q[1]), sorted(gp, key=lambda q: q[1])) for gp in polys):
+                return True, 'reg-vertices', 'no DS9 polygon has the corners %s of a stored pixel' % (wp,)
         mf = os.path.join(d, 'm.mim')
         r.save(mf)
         r2 = regions.Region.load(mf)
